@@ -64,6 +64,15 @@ Proof.
     intros a b. apply reg_bv_edge_graph.
 Qed.
 
+(** a failing check exhibits a cycle of the registry graph *)
+Theorem by_value_acyclicb_false_cycle r s :
+  by_value_acyclicb r s = false -> exists n p, walk (reg_bv_edge r s) n p p.
+Proof.
+  unfold by_value_acyclicb, bv_rank_table. cbv zeta. intros H.
+  destruct (rank_okb_false_cycle _ H) as (n & c & W). exists n, c. revert W. apply walk_mono.
+  intros a b. apply reg_bv_edge_graph.
+Qed.
+
 (** ** item edges are registry edges *)
 Section SizedReg.
   Variable r : registry.
@@ -477,6 +486,15 @@ Section SizedReg.
     intros Hg. rewrite by_value_acyclicb_iff. split; intros H n p W; apply (H n p); revert W;
       apply walk_mono; intros a b; apply (item_edge_iff teq m Hg).
   Qed.
+
+  (** .. and when the boolean fails they have one, explicitly *)
+  Theorem unsized_witness teq m :
+    generate r s teq = Ok m -> by_value_acyclicb r s = false ->
+    exists n p, walk (item_edge s m) n p p.
+  Proof.
+    intros Hg Hb. destruct (by_value_acyclicb_false_cycle r s Hb) as (n & p & W).
+    exists n, p. revert W. apply walk_mono. intros a b. apply (item_edge_iff teq m Hg).
+  Qed.
 End SizedReg.
 
 (** the statements in the argument order of Properties/C02.v *)
@@ -496,6 +514,11 @@ Theorem item_edges_exact :
   forall r s, root_fresh s -> forall teq m, generate r s teq = Ok m ->
   forall pa pb, item_edge s m pa pb <-> reg_bv_edge r s pa pb.
 Proof. exact item_edge_iff. Qed.
+
+Theorem unsized_witness_pinned :
+  forall r s, root_fresh s -> forall teq m, generate r s teq = Ok m ->
+  by_value_acyclicb r s = false -> exists n p, walk (item_edge s m) n p p.
+Proof. exact unsized_witness. Qed.
 
 Theorem sized_iff_pinned :
   forall r s, root_fresh s -> forall teq m, generate r s teq = Ok m ->
